@@ -1,6 +1,7 @@
 package exec
 
 import (
+	"math"
 	"go/types"
 
 	"golang.org/x/tools/go/ssa"
@@ -441,4 +442,42 @@ func init() {
 		}
 		return IfaceV{T: types.Typ[types.String], V: "reflect.Type:" + iv.T.String()}
 	}
+}
+
+// math.Min / math.Max as one term (the special cases of math.min / math.max spelled out) instead of
+// a fork per special case.
+func init() {
+	mk := func(isMin bool) intrinsic {
+		return func(e *Exec, th *Thread, caller *Frame, site ssa.Instruction, args []Value) Value {
+			c := e.ctx
+			x, y := e.term(args[0]), e.term(args[1])
+			if x.IsConst() && y.IsConst() {
+				if isMin {
+					return c.FloatC(math.Min(x.Float(), y.Float()))
+				}
+				return c.FloatC(math.Max(x.Float(), y.Float()))
+			}
+			zero := c.FloatC(0)
+			nan := c.Or(c.FIsNaN(x), c.FIsNaN(y))
+			bothZero := c.And(c.FCmp(smt.OFEq, x, zero), c.FCmp(smt.OFEq, x, y))
+			sign := c.Not(c.Cmp(smt.OEq, c.Bin(smt.OAnd, c.FBits(x), c.Const(smt.U64, 1<<63)), c.Const(smt.U64, 0)))
+			var inf, isInf, zeroCase, plain *smt.Term
+			if isMin {
+				lim := c.FloatC(-math.MaxFloat64)
+				isInf = c.Or(c.FCmp(smt.OFLt, x, lim), c.FCmp(smt.OFLt, y, lim))
+				inf = c.FloatC(math.Inf(-1))
+				zeroCase = c.Ite(sign, x, y)
+				plain = c.Ite(c.FCmp(smt.OFLt, x, y), x, y)
+			} else {
+				lim := c.FloatC(math.MaxFloat64)
+				isInf = c.Or(c.FCmp(smt.OFLt, lim, x), c.FCmp(smt.OFLt, lim, y))
+				inf = c.FloatC(math.Inf(1))
+				zeroCase = c.Ite(sign, y, x)
+				plain = c.Ite(c.FCmp(smt.OFLt, y, x), x, y)
+			}
+			return c.Ite(isInf, inf, c.Ite(nan, c.FloatC(math.NaN()), c.Ite(bothZero, zeroCase, plain)))
+		}
+	}
+	intrinsics["math.Min"] = mk(true)
+	intrinsics["math.Max"] = mk(false)
 }
